@@ -99,3 +99,57 @@ package nasConvert
 //@   ensures implies(errPduSessionId != nil && len(errPduSessionId) == len(errCause), forall(k, 0, len(errPduSessionId), buf[2*k] == errPduSessionId[k] && buf[2*k+1] == errCause[k]))
 //@   ensures implies(errPduSessionId == nil || len(errPduSessionId) != len(errCause), len(buf) == 0)
 //@ end
+
+// ---- C12: identities between wire octets and text (TS 23.003 2.2, 2.10; TS 24.501 9.11.3.4) ----
+// HexCh(n): lower-case hexadecimal character of the nibble n; HexV(c): value of a hexadecimal character;
+// D(c): value of a decimal digit character.
+
+//@ define HexCh(n) := ite((n) < 10, 48 + (n), 87 + (n))
+//@ define HexV(c) := ite((c) <= 57, (c) - 48, ite((c) >= 97, (c) - 87, (c) - 55))
+//@ define IsDig(c) := ((c) >= 48 && (c) <= 57)
+//@ define IsHex(c) := (((c) >= 48 && (c) <= 57) || ((c) >= 97 && (c) <= 102) || ((c) >= 65 && (c) <= 70))
+//@ define D(c) := ((c) - 48)
+//@ define AllHex6(s, o) := (IsHex(s[o]) && IsHex(s[o+1]) && IsHex(s[o+2]) && IsHex(s[o+3]) && IsHex(s[o+4]) && IsHex(s[o+5]))
+//@ define HexOf(s, o, b) := (s[o] == HexCh((b) >> 4) && s[o+1] == HexCh((b) & 15))
+
+// AMF identifier = region (8 bits) || set (10 bits) || pointer (6 bits), as 6 lower-case hexadecimal characters.
+//@ func AmfIdToModels(amfRegionId, amfSetId, amfPointer) (amfId)
+//@   ensures len(amfId) == 6
+//@   ensures HexOf(amfId, 0, amfRegionId)
+//@   ensures HexOf(amfId, 2, uint8(amfSetId >> 2))
+//@   ensures HexOf(amfId, 4, (uint8(amfSetId & 3) << 6) | (amfPointer & 63))
+//@ end
+
+//@ func AmfIdToNasWithError(amfId) (amfRegionId, amfSetId, amfPointer, err)
+//@   lencase amfId 6
+//@   assigns nothing
+//@   ensures implies(len(amfId) != 6, err != nil)
+//@   ensures implies(len(amfId) == 6 && !AllHex6(amfId, 0), err != nil)
+//@   ensures implies(len(amfId) == 6 && AllHex6(amfId, 0), err == nil)
+//@   ensures implies(len(amfId) == 6 && AllHex6(amfId, 0), amfRegionId == (HexV(amfId[0]) << 4) | HexV(amfId[1]))
+//@   ensures implies(len(amfId) == 6 && AllHex6(amfId, 0), amfSetId == (uint16(HexV(amfId[2])) << 6) | (uint16(HexV(amfId[3])) << 2) | (uint16(HexV(amfId[4])) >> 2))
+//@   ensures implies(len(amfId) == 6 && AllHex6(amfId, 0), amfPointer == ((HexV(amfId[4]) & 3) << 4) | HexV(amfId[5]))
+//@ end
+
+// PLMN: octet 1 = MCC digit 2 | MCC digit 1, octet 2 = MNC digit 3 (or 1111) | MCC digit 3, octet 3 = MNC digit 2 | MNC digit 1.
+//@ func PlmnIDToString(nasBuf) (s)
+//@   requires len(nasBuf) >= 3
+//@   assigns nothing
+//@   ensures len(s) == ite(nasBuf[1] >> 4 == 15, 5, 6)
+//@   ensures s[0] == HexCh(nasBuf[0] & 15) && s[1] == HexCh(nasBuf[0] >> 4) && s[2] == HexCh(nasBuf[1] & 15)
+//@   ensures s[3] == HexCh(nasBuf[2] & 15) && s[4] == HexCh(nasBuf[2] >> 4)
+//@   ensures implies(nasBuf[1] >> 4 != 15, s[5] == HexCh(nasBuf[1] >> 4))
+//@ end
+
+//@ func PlmnIDToNas(plmnID) (r)
+//@   lencase plmnID.Mcc 3
+//@   lencase plmnID.Mnc 2 3
+//@   lenonly
+//@   requires len(plmnID.Mcc) == 3 && (len(plmnID.Mnc) == 2 || len(plmnID.Mnc) == 3)
+//@   requires IsDig(plmnID.Mcc[0]) && IsDig(plmnID.Mcc[1]) && IsDig(plmnID.Mcc[2]) && IsDig(plmnID.Mnc[0]) && IsDig(plmnID.Mnc[1])
+//@   requires implies(len(plmnID.Mnc) == 3, IsDig(plmnID.Mnc[2]))
+//@   ensures len(r) == 3 && fresh(r)
+//@   ensures r[0] == (D(plmnID.Mcc[1]) << 4) | D(plmnID.Mcc[0])
+//@   ensures r[1] == (ite(len(plmnID.Mnc) == 3, D(plmnID.Mnc[2]), 15) << 4) | D(plmnID.Mcc[2])
+//@   ensures r[2] == (D(plmnID.Mnc[1]) << 4) | D(plmnID.Mnc[0])
+//@ end
